@@ -6,6 +6,6 @@ export GOFLAGS=-mod=mod GOPROXY=off GOSUMDB=off GOTOOLCHAIN=local
 mkdir -p bin run evidence replays
 (cd tools/goyacc && go build -o ../../bin/goyacc golang.org/x/tools/cmd/goyacc)
 (cd tools && go build -o ../bin/extract ./cmd/extract && go build -tags verif -o ../bin/harness ./cmd/harness)
-./bin/extract -repo "${VERIF_REPO:-/repo}" -out lean/Anko/Gen > run/extract.json || true
+VERIF_GOYACC="$PWD/bin/goyacc" ./bin/extract -repo "${VERIF_REPO:-/repo}" -out lean/Anko/Gen > run/extract.json || true
 (cd lean && lake build Anko ankomodel)
 echo "setup done"
